@@ -60,12 +60,15 @@ class ExecutionContext:
             return self.__CreateStructureInstance(varType)
         elif varType.IsArray():
             assert isinstance(varType, LinearIR.ArrayType)
-            result = [
-                self.__CreateInstance(varType.ElementType)
-            ] * varType.Size[0]
-            for dimSize in varType.Size[1:]:
-                result = [result] * dimSize
-            return result
+
+            # The first size is the outermost dimension, and every slot gets
+            # its own instance (elements can be mutable: structures, rows)
+            def Create(sizes):
+                if not sizes:
+                    return self.__CreateInstance(varType.ElementType)
+                return [Create(sizes[1:]) for _ in range(sizes[0])]
+
+            return Create(list(varType.Size))
 
     def __CreatePrimitiveInstance(self, primitiveType: LinearIR.Type):
         match primitiveType.Kind:
